@@ -653,12 +653,18 @@ def r10_output_family(ctx, sym):
             raise AnalysisError("anchor vanished: %s.condition" % cls_name)
         owner, fn = m
         ctx.analysed_function(owner.module, fn)
-        for operand in ('call-result', 'sandbox', 'error'):
-            for text in ('Hello world!', 'banner', 'hello', 'zzz'):
+        for operand in ('call-result', 'sandbox', 'error', 'call-result:trailing-blank-line'):
+            for text in ('Hello world!', 'banner', 'hello', 'zzz', 'Hello world!\n'):
                 for exact in (True, False):
                     sb = Obj('sandbox', raw_output='banner\nHello world!\n', output=['banner', 'Hello world!'],
                              exception=None)
-                    if operand == 'call-result':
+                    if operand == 'call-result:trailing-blank-line':
+                        # print("Hello world!"); print(): what was printed minus the final newline print() adds
+                        own = 'Hello world!\n'
+                        value = Obj('proxied-result', _actual_sandbox=sb, _actual_context_id=3, _actual_value=None)
+                        execution = Obj('execution', value=value, is_sandboxed=True, is_error=False,
+                                        context=[Obj('context', output='Hello world!\n\n', context_id=3)])
+                    elif operand == 'call-result':
                         own = 'Hello world!'
                         value = Obj('proxied-result', _actual_sandbox=sb, _actual_context_id=3, _actual_value=None)
                         execution = Obj('execution', value=value, is_sandboxed=True, is_error=False,
